@@ -149,13 +149,11 @@ Proof.
 Qed.
 
 (* crdt manager *)
-Lemma crdt_export_import ord s s0 : order_oracle ord -> keys_nodup s -> no_origins s -> s <> [] ->
+Lemma crdt_export_import ord s s0 : order_oracle ord -> keys_nodup s -> no_origins s ->
   exists s', crdt_import (export ord s) s0 = (s', ImpOk) /\ same_pinset s' s.
 Proof.
-  intros Ho Hnd Hno Hne. destruct (export_import_same ord s Ho Hnd Hno) as [s' [E Hs]].
+  intros Ho Hnd Hno. destruct (export_import_same ord s Ho Hnd Hno) as [s' [E Hs]].
   exists s'. unfold crdt_import. rewrite E. split; auto.
-  destruct (export ord s) eqn:Ex; auto. exfalso. unfold export in Ex. apply map_eq_nil in Ex.
-  pose proof (Ho s) as P. rewrite Ex in P. apply Permutation_nil in P. contradiction.
 Qed.
 
 Lemma import_replaces ls (s0 s1 : pstate) : fst (crdt_import ls s0) = fst (crdt_import ls s1).
